@@ -7,7 +7,9 @@ COQ_IMPORTS = ['Prims', 'CaseLib', 'Golomb', 'GolombSpec']
 ALLOWED_AXIOMS = ()
 RULE = ('encode: every n with |n| <= W exhaustively for the four codes plus random n up to 2^200, through five creation routes; '
         'decode: every bit string up to a length bound as input at every position, plus random long strings; '
-        'streams of mixed codes with random prefix/suffix; truncated codewords; codeword + trailing bits. '
+        'streams of mixed codes with random prefix/suffix; truncated codewords; codeword + trailing bits; '
+        'keywords: values (0, False, True included) and lengths given as keywords of pack under names that are pieces of the code names, records of codes and fixed-width fields '
+        'packed (positional / literal / keyword values, digit / keyword lengths, zero lengths) and read back, streams read by unpack / readlist / peeklist / token by token with used, unused and zero-valued keywords. '
         'non-trivial = the case exercises a loop iteration (n != 0 / at least one leading zero) ; distinct by (op, arguments)')
 TRUSTED_BASE = ['hand model coq/Golomb.v of ue2bitstore/se2bitstore/uie2bitstore/sie2bitstore and Bits._readue/_readse/_readuie/_readsie, tied by vm_compute correspondence']
 ASSUMPTIONS = ['bitarray slicing/indexing and int2ba behave as Prims.v models them (L0 corr.)',
@@ -145,6 +147,133 @@ def gen_cases(rng, tier):
         pre = ''.join(rng.choice('01') for _ in range(rng.randrange(0, 12)))
         rest = ''.join(rng.choice('01') for _ in range(rng.randrange(0, 12)))
         yield {'op': 'stream', 'items': items, 'pre': pre, 'rest': rest, 'via': rng.choice(['readlist', 'reads', 'unpack']), 'opt_ba': rng.random() < 0.4}
+    yield from gen_kw(rng, tier)
+
+
+# ---------------- keyword arguments of pack / unpack / readlist / peeklist ----------------
+# Keywords only stand for the lengths and values that the format names; a keyword that happens to be called like a piece of a code name (the tail 'e' of
+# 'ue', 'ie' of 'uie', the head 'u', ...) or that holds 0 / False / '' / an empty bitstring changes nothing about what 'ue', 'se', 'uie', 'sie' mean.
+KW_PIECES = ['e', 'ie', 'u', 's', 'i', 'ui', 'si']                       # heads, tails and middles of the four code names
+# (no name is itself a possible token such as 'i8' or 'ue': a token that IS a keyword stands for that keyword's value in pack)
+KW_NAMES = KW_PIECES + ['n', 'w', 'k', 'len', 'b', 'h', 'f', 'ue_', 'see', 'e1', 'i_8', 'u_2', 'uies', 'x_ue', 'E', 'Ie']
+KW_LENGTHS = [0, 0, 1, 2, 3, 4, 5, 7, 8, 8, 12, 16]
+
+def field_value(kind, fb):
+    """what reading the bits fb as `kind` must return (JSON form)"""
+    if kind in ('uint', 'u'): return int(fb, 2)
+    if kind in ('int', 'i'): return int(fb, 2) - ((1 << len(fb)) if fb[0] == '1' else 0)
+    if kind == 'bin': return fb
+    if kind == 'hex': return format(int(fb, 2), f'0{len(fb) // 4}x') if fb else ''
+    if kind == 'bits': return {'bits': fb}
+    if kind == 'bool': return {'bool': fb == '1'}
+    if kind == 'pad': return None
+    raise AssertionError(kind)
+
+def item_bits(it, packed=False):
+    kind, lenspec, val = it[0], it[1], it[2]
+    if kind in CODES: return ref_enc(kind, val)
+    return '0' * len(val) if (packed and kind == 'pad') else val
+
+def item_token(it, rng_bit=0):
+    kind, lenspec = it[0], it[1]
+    if kind in CODES or kind == 'bool': return kind
+    if isinstance(lenspec, int): return f'{kind}:{lenspec}' if rng_bit else f'{kind}{lenspec}'
+    return f'{kind}:{lenspec}'
+
+def spell_format(tokens, spell):
+    if spell == 'strings': return list(tokens)
+    if spell == 'chunks':
+        out, i = [], 0
+        while i < len(tokens):
+            m = 1 + (i * 7 + len(tokens)) % 3
+            out.append(', '.join(tokens[i:i + m])); i += m
+        return out
+    if spell == 'factor':
+        out = []
+        for t in tokens:
+            if out and out[-1][1] == t: out[-1][0] += 1
+            else: out.append([1, t])
+        return ', '.join(t if m == 1 else f'{m}*{t}' for m, t in out) if any(m > 1 for m, _ in out) else '1*(' + ', '.join(tokens) + ')'
+    if spell == 'spaces': return '  ,'.join(' ' + t + ' ' for t in tokens)
+    return ', '.join(tokens)
+
+def rand_code_value(rng, code):
+    r = rng.random()
+    if r < 0.3: n = 0
+    elif r < 0.5: n = rng.choice([1, -1, 2, -2, 3])
+    elif r < 0.9: n = rng.randrange(0, 300) * rng.choice([1, -1])
+    else: n = rng.randrange(1 << rng.randrange(1, 70)) * rng.choice([1, -1])
+    return abs(n) if code in ('ue', 'uie') else n
+
+def rand_kw(rng):
+    names = rng.sample(KW_NAMES, rng.randrange(0, 4))
+    if rng.random() < 0.8: names = sorted(set(names + rng.sample(KW_PIECES, rng.randrange(1, 4))))
+    return {nm: rng.choice(KW_LENGTHS) for nm in names}
+
+def rand_items(rng, kw, k, p_code=0.7):
+    """k items: codes (with a value) and fixed-width fields whose length is a keyword of kw or written out in digits"""
+    items = []
+    for j in range(k):
+        if rng.random() < p_code or (j == k - 1 and not any(it[0] in CODES for it in items)):
+            code = rng.choice(CODES)
+            if items and items[-1][0] in CODES and rng.random() < 0.25: code = items[-1][0]
+            items.append([code, None, rand_code_value(rng, code)])
+            continue
+        if kw and rng.random() < 0.75:
+            lenspec = rng.choice(sorted(kw)); L = kw[lenspec]
+        else:
+            lenspec = L = rng.choice([1, 2, 3, 4, 5, 8, 12, 13])
+        kinds = ['bin', 'bits', 'pad'] + (['uint', 'int', 'uint', 'int'] if L >= 1 else []) + (['hex'] if L % 4 == 0 else []) + (['u', 'i'] if isinstance(lenspec, int) else [])
+        kind = rng.choice(kinds)
+        if rng.random() < 0.15: kind, lenspec, L = 'bool', None, 1
+        items.append([kind, lenspec, ''.join(rng.choice('01') for _ in range(L))])
+    return items
+
+def gen_kw(rng, tier):
+    q = tier == 'quick'
+    # (a) encoding one value whose VALUE comes from a keyword (any name, pieces of the code names included), beside unrelated keywords; 0 and the bools through every route
+    for code in CODES:
+        specials = [0, 1, 2, False, True, 7, -1, -2] + [rand_code_value(rng, code) for _ in range(4 if q else 60)]
+        for n in specials:
+            for route in ROUTES:
+                if isinstance(n, bool) and route == 'token': continue
+                if n in (0, 1, -1): yield {'op': 'enc', 'code': code, 'n': n, 'route': route}
+            for nm in rng.sample(KW_PIECES, 3) + rng.sample(KW_NAMES, 2 if q else 6):
+                extra = {x: rng.choice([0, 0, 3, 8]) for x in rng.sample(KW_NAMES, rng.randrange(0, 3)) if x != nm}
+                yield {'op': 'enc', 'code': code, 'n': n, 'route': rng.choice(['pack_kw', 'pack_kw', 'pack_kw_list', 'pack_kw_twice']), 'kwname': nm, 'extra': extra}
+            yield {'op': 'enc', 'code': code, 'n': n, 'route': 'pack_pos_extra', 'kwname': None, 'extra': {x: rng.choice([0, 0, 5]) for x in rng.sample(KW_NAMES, rng.randrange(1, 4))}}
+    # (b) reading a stream of codes (and fixed-width fields) with keywords present: used ones (lengths), unused ones, zero-valued ones
+    for _ in range(260 if q else 6000):
+        kw = rand_kw(rng)
+        items = rand_items(rng, kw, rng.randrange(1, 7), rng.choice([1.0, 0.75, 0.75, 0.5]))
+        via = rng.choice(['unpack', 'unpack', 'readlist', 'readlist', 'peeklist', 'readlist_each'])
+        yield {'op': 'kwread', 'items': items, 'kw': kw, 'via': via, 'spell': rng.choice(['string', 'string', 'strings', 'chunks', 'factor', 'spaces']),
+               'cls': rng.choice(['Bits', 'BitArray', 'ConstBitStream', 'BitStream'] if via == 'unpack' else ['ConstBitStream', 'BitStream']),
+               'pre': ''.join(rng.choice('01') for _ in range(rng.choice([0, 0, 0, 3, 8, 11]))) if via != 'unpack' else '',
+               'rest': ''.join(rng.choice('01') for _ in range(rng.choice([0, 0, 1, 5, 9]))), 'colon': rng.randrange(2)}
+    # (c) packing a record: every value positional, written in the format, or a keyword; every length in digits or a keyword; then read back
+    for _ in range(220 if q else 5000):
+        kw = rand_kw(rng)
+        items = rand_items(rng, kw, rng.randrange(1, 7), rng.choice([1.0, 0.8, 0.6]))
+        free = [x for x in KW_NAMES if x not in kw]; rng.shuffle(free)
+        vals = {}
+        bad = False
+        for it in items:
+            kind = it[0]
+            if kind == 'pad': it += [None, None]; continue
+            how = rng.choice(['kw', 'kw', 'kw', 'pos', 'lit'])
+            if how == 'lit' and (kind in ('bits', 'bool') or (kind in ('bin', 'hex') and not it[2])): how = 'kw'
+            if how == 'lit' and kind == 'hex' and field_value('hex', it[2]) in KW_NAMES: how = 'pos'      # 'hex:8=e1' beside a keyword e1 means that keyword's value
+            if kind in ('ue', 'uie') and how != 'lit' and rng.random() < 0.04: it[2] = -1 - it[2]; bad = True       # a negative value for an unsigned code: refused
+            if kind in CODES and how != 'lit' and it[2] in (0, 1) and rng.random() < 0.3: it[2] = bool(it[2])
+            nm = None
+            if how == 'kw':
+                same = [x for x, v in vals.items() if v == [kind, it[2]]]
+                if same and rng.random() < 0.5: nm = same[0]                # the same keyword feeds two tokens
+                elif free: nm = free.pop(); vals[nm] = [kind, it[2]]
+                else: how = 'pos'
+            it += [how, nm]
+        yield {'op': 'kwpack', 'items': items, 'kw': kw, 'vals': vals, 'spell': rng.choice(['string', 'string', 'strings', 'chunks', 'factor', 'spaces']), 'colon': rng.randrange(2), 'bad': bad}
 
 def kind(c):
     return c['op'] + ':' + c.get('via', c.get('route', ''))
@@ -167,7 +296,72 @@ def run_impl(c):
             if route == 'build': return Dtype(code).build(n).bin
             if route == 'setattr':
                 a = BitArray('0b1'); setattr(a, code, n); return a.bin
+            # the value through a keyword of pack (beside unrelated keywords), or positionally with unrelated keywords present
+            nm, extra = c.get('kwname'), c.get('extra') or {}
+            if route == 'pack_kw': return pack(f'{code}={nm}', **dict(extra, **{nm: n})).bin
+            if route == 'pack_kw_list': return pack([f'{code}={nm}'], **dict(extra, **{nm: n})).bin
+            if route == 'pack_kw_twice':
+                r = pack(f'{code}={nm}, {code}={nm}', **dict(extra, **{nm: n})).bin
+                h = len(r) // 2
+                return r[:h] if r[:h] == r[h:] else 'two different halves: ' + r
+            if route == 'pack_pos_extra': return pack(code, n, **extra).bin
+            raise AssertionError(route)
         return attempt(f)
+    if op == 'kwread':
+        def canon(v):
+            if isinstance(v, bool): return {'bool': v}
+            if isinstance(v, Bits): return {'bits': v.bin}
+            return int(v) if isinstance(v, int) else v
+        items, kw = c['items'], c['kw']
+        tokens = [item_token(it, c['colon']) for it in items]
+        stream = ''.join(item_bits(it) for it in items)
+        C = {'Bits': Bits, 'BitArray': BitArray, 'ConstBitStream': ConstBitStream, 'BitStream': BitStream}[c['cls']]
+        via = c['via']
+        if via == 'unpack':
+            o = C(bin=stream + c['rest'])
+            def f():
+                vals = o.unpack(spell_format(tokens + ['bits'], c['spell']), **kw)
+                return [[canon(v) for v in vals[:-1]], len(o) - len(vals[-1]), o.bin]
+            return attempt(f)
+        o = C(bin=c['pre'] + stream + c['rest']); o.pos = len(c['pre'])
+        if via == 'readlist_each':
+            steps = []
+            for j, t in enumerate(tokens):
+                r = attempt(lambda: [canon(v) for v in o.readlist(t if j % 2 else [t], **kw)])
+                steps.append([r[0], r[1], o.pos])
+                if r[0] != 'ok': break
+            return ('ok', steps)
+        r = attempt(lambda: [canon(v) for v in (o.readlist if via == 'readlist' else o.peeklist)(spell_format(tokens, c['spell']), **kw)])
+        return (r[0], [r[1], o.pos, o.bin])
+    if op == 'kwpack':
+        def real(kind, v):
+            if kind in CODES: return v
+            if kind == 'bits': return Bits(bin=v) if len(v) % 2 else BitArray(bin=v)
+            if kind == 'bool': return v == '1'
+            return field_value(kind, v)
+        items = c['items']
+        kwargs = dict(c['kw'])
+        for nm, (kind, v) in c['vals'].items(): kwargs[nm] = real(kind, v)
+        tokens, positional = [], []
+        for kind, lenspec, v, how, nm in items:
+            t = item_token([kind, lenspec], c['colon'])
+            if how == 'kw': t += '=' + nm
+            elif how == 'lit': t += '=' + str(real(kind, v))
+            elif how == 'pos': positional.append(real(kind, v))
+            tokens.append(t)
+        def f():
+            r = pack(spell_format(tokens, c['spell']), *positional, **kwargs)
+            return [type(r).__name__, r.bin, r.pos]
+        r = attempt(f)
+        if r[0] != 'ok': return r
+        # read the record back with the bare tokens and the same keywords
+        def canon(v):
+            if isinstance(v, bool): return {'bool': v}
+            if isinstance(v, Bits): return {'bits': v.bin}
+            return int(v) if isinstance(v, int) else v
+        s2 = ConstBitStream(bin=r[1][1])
+        back = attempt(lambda: [canon(v) for v in s2.readlist([item_token(it, c['colon']) for it in items], **c['kw'])])
+        return ('ok', r[1] + [list(back), s2.pos])
     if op == 'setter_history':
         # assign through the property, edit the object in place, then encode the same integer again through other routes
         code, n = c['code'], c['n']
@@ -230,7 +424,48 @@ def oracle(c, obs):
         if ref is None:
             if obs[0] != 'err' or obs[1] != 'ValueError': return f"encoding {c['n']} as {c['code']} should raise CreationError, got {obs}"
         elif obs != ('ok', ref):
-            return f"{c['code']}({c['n']}) via {c['route']} gave {obs}, table says {ref}"
+            return f"{c['code']}({c['n']!r}) via {c['route']}{' (keyword ' + repr(c['kwname']) + ', other keywords ' + str(c.get('extra')) + ')' if 'kwname' in c else ''} gave {obs}, table says {ref}"
+        return None
+    if op == 'kwread':
+        items, kw = c['items'], c['kw']
+        tokens = [item_token(it, c['colon']) for it in items]
+        what = f"{c['cls']}.{c['via']} of the format {spell_format(tokens, c['spell'])!r} with the keywords {kw} on the codewords / fields of {[it[2] for it in items]}"
+        exp_vals = [it[2] if it[0] in CODES else field_value(it[0], it[2]) for it in items]
+        lens = [len(item_bits(it)) for it in items]
+        start = len(c['pre'])
+        if c['via'] == 'readlist_each':
+            pos = start
+            for j, st in enumerate(obs[1]):
+                pos += lens[j]
+                ev = [] if exp_vals[j] is None else [exp_vals[j]]
+                if st[0] != 'ok' or st[1] != ev or st[2] != pos:
+                    return f"{what}, one token per call: token {j} ({tokens[j]!r}) gave {st[:2]} and left pos at {st[2]}; expected {ev} and pos {pos} (keywords only stand for the lengths the format names)"
+            if len(obs[1]) != len(items): return f"{what}: stopped after {len(obs[1])} tokens"
+            return None
+        ev = [v for v in exp_vals if v is not None]
+        if obs[0] != 'ok': return f"{what}: raised {obs[1][0] if isinstance(obs[1], (list, tuple)) else obs[1]} (expected {ev}; keywords only stand for the lengths the format names)"
+        vals, pos, bits = obs[1]
+        epos = start if c['via'] == 'peeklist' else start + sum(lens)
+        if vals != ev or pos != epos:
+            return f"{what}: gave {vals} and position {pos}; expected {ev} and position {epos} (each code advances by exactly one codeword; keywords only stand for the lengths the format names)"
+        if bits != c['pre'] + ''.join(item_bits(it) for it in items) + c['rest']: return f"{what}: the content changed to {bits!r}"
+        return None
+    if op == 'kwpack':
+        items = c['items']
+        shown = [(it[0], it[1], it[2], it[3], it[4]) for it in items]
+        what = f"pack of the record {shown} (kind, length, value, how the value is given, keyword) with the keywords {c['kw']} and keyword values {c['vals']}, format spelled as {c['spell']}"
+        if c['bad']:
+            if obs[0] != 'err' or obs[1] not in ('ValueError', 'BsError'): return f"{what}: a negative value for an unsigned code must be rejected, got {obs}"
+            return None
+        ebits = ''.join(item_bits(it, packed=True) for it in items)
+        if obs[0] != 'ok': return f"{what}: raised {obs[1]}; expected the bits {ebits!r} (a keyword value of 0 / False / '' is a value like any other)"
+        cls, bits, pos, back, pos2 = obs[1]
+        if cls != 'BitStream' or bits != ebits or pos != 0:
+            return f"{what}: gave a {cls} holding {bits!r} at pos {pos}; the tables give {ebits!r}"
+        ev = [(int(it[2]) if it[0] in CODES else field_value(it[0], it[2] if it[0] != 'pad' else '0' * len(it[2]))) for it in items]
+        ev = [v for v in ev if v is not None]
+        if back[0] != 'ok' or back[1] != ev or pos2 != len(ebits):
+            return f"{what}: packed {bits!r} but reading it back gave {back} and pos {pos2}; expected {ev} and pos {len(ebits)}"
         return None
     if op == 'setter_history':
         ref = ref_enc(c['code'], c['n'])
@@ -273,6 +508,7 @@ def oracle(c, obs):
 def nontrivial(c, obs):
     if c['op'] in ('enc', 'setter_history'): return c['n'] != 0
     if c['op'] == 'stream': return len(c['items']) > 1
+    if c['op'] in ('kwread', 'kwpack'): return bool(c['kw'] or c.get('vals'))
     return '0' in c['bits'] and '1' in c['bits']
 
 def classify(c, obs):
@@ -284,9 +520,11 @@ def coq_check(c, obs):
     op = c['op']
     if op == 'setter_history':
         return f"rbits_eqb (g_enc {COQC[c['code']]} {cz(c['n'])}) (Ok {cbits(obs[1][0])})" if obs[0] == 'ok' else None
+    if op in ('kwread', 'kwpack'): return None      # the keyword substitution of the tokenizer is not part of the Golomb model: the oracle decides
     if op == 'enc':
         if c['route'] in ('token',) and obs[0] == 'err': return None  # token strings: parse errors are C05's
-        return f"rbits_eqb (g_enc {COQC[c['code']]} {cz(c['n'])}) {cres(obs, cbits)}"
+        if obs[0] == 'ok' and set(obs[1]) - set('01'): return 'false'
+        return f"rbits_eqb (g_enc {COQC[c['code']]} {cz(int(c['n']))}) {cres(obs, cbits)}"
     if op == 'whole':
         return f"rz_eqb (get_whole (g_read {COQC[c['code']]}) {cbits(c['bits'])}) {cres(obs, cz)}"
     if op == 'read':
@@ -308,7 +546,7 @@ def coq_check(c, obs):
 
 def coq_model_term(c):
     op = c['op']
-    if op == 'enc': return f"g_enc {COQC[c['code']]} {cz(c['n'])}"
+    if op == 'enc': return f"g_enc {COQC[c['code']]} {cz(int(c['n']))}"
     if op == 'whole': return f"get_whole (g_read {COQC[c['code']]}) {cbits(c['bits'])}"
     if op == 'read': return f"read_fn_var (g_read {COQC[c['code']]}) {cbits(c['bits'])} {cz(c['pos'])}"
     return 'tt'
